@@ -656,11 +656,20 @@ def wave9_rules(ctx):
                     continue
                 helpers = set(x["pat"]["name"] for x in sir.walk(f.body) if x.get("k") == "local" and x.get("init") is not None and x["init"].get("k") == "closure" and x["pat"].get("k") == "p_ident"
                               and any(y.get("k") == "mcall" and y["m"] == "push" for y in sir.walk(x["init"])))
-                if not any(y.get("k") == "mcall" and y["m"] == "push" for a in m["arms"] for y in sir.walk(a["body"])) and not helpers:
+                if not any(y.get("k") == "mcall" and y["m"] == "push" for y in sir.walk(lp["body"])) and not helpers:
                     continue
+                # the match may also yield the entry, which the loop body pushes after it (`let item = match .. ; list.push(item)`)
+                yielded = None
+                for l_ in sir.walk(lp["body"]):
+                    if l_.get("k") == "local" and l_.get("init") is m and l_["pat"].get("k") == "p_ident":
+                        nm_ = l_["pat"]["name"]
+                        if any(y.get("k") == "mcall" and y["m"] == "push" and y["args"] and sir.expr_str(sir.strip_ref(y["args"][0])) == nm_ for y in sir.walk(lp["body"])):
+                            yielded = nm_
                 for a in m["arms"]:
                     v = sir.pat_str(a["pat"]).split("{")[0].split("(")[0].strip()
                     pushes = any(y.get("k") == "mcall" and y["m"] == "push" for y in sir.walk(a["body"]))
+                    if not pushes and yielded is not None and not any(y.get("k") in ("continue", "break", "return") for y in sir.walk(a["body"])):
+                        pushes = True
                     via = any(y.get("k") == "call" and (sir.call_name(y) or "") in helpers for y in sir.walk(a["body"]))
                     other = [sir.call_name(y) for y in sir.walk(a["body"]) if y.get("k") in ("call", "mcall") and not sir.write_fmt_call(y)
                              and (sir.call_name(y) or "").split("::")[-1] not in ("len", "write_fmt", "write_str", "push_str", "format_args", "new_const", "new_v1", "new")]
